@@ -6,6 +6,7 @@ import (
 
 	"github.com/antonmedv/expr"
 	"github.com/antonmedv/expr/ast"
+	"github.com/antonmedv/expr/vm"
 
 	"verif/mc/gen"
 	"verif/mc/henv"
@@ -91,6 +92,7 @@ func c17Grammar() *gen.Grammar {
 		// contexts
 		gen.Index(gen.TIntArr, gen.TInt, gen.TInt), gen.Slice("f", gen.TIntArr), gen.Slice("ft", gen.TIntArr), gen.Slice("t", gen.TStr), gen.Index(gen.TObjArr, gen.TInt, gen.TObj),
 		gen.Call("Id", gen.TInt, gen.TInt), gen.Call("Sum", gen.TInt, gen.TInt, gen.TInt), gen.Call("Cat", gen.TStr, gen.TStr, gen.TStr),
+		gen.Call("Pack", gen.TAny, gen.TInt), gen.Call("Pack", gen.TAny, gen.TStr, gen.TInt), gen.Call("Fast", gen.TAny, gen.TInt, gen.TStr), gen.Call("TakesAny", gen.TAny, gen.TInt), gen.Call("Second", gen.TAny, gen.TStr, gen.TObj),
 		gen.Method(gen.TObj, "Plus", gen.TInt, false, gen.TInt), gen.Prop(gen.TObj, "Next", gen.TObj, false),
 		gen.Builtin("map", gen.TIntArr, gen.TInt, gen.TIntArr), gen.Builtin("all", gen.TIntArr, T, T), gen.Builtin("filter", gen.TStrArr, T, gen.TStrArr), gen.Builtin("any", gen.TObjArr, T, T), gen.Builtin("count", gen.TIntArr, T, gen.TInt),
 		gen.Cond(gen.TInt), gen.Cond(gen.TStr), gen.Un("not", T, T), gen.Un("-", gen.TInt, gen.TInt),
@@ -187,6 +189,21 @@ func c17Oracle(e *gen.Expr, t c17Table, only string) (out []mismatch, runs int64
 		add := func(kind string, v henv.Val, d string) {
 			if only == "" || only == m.String()+"|"+kind {
 				out = append(out, mismatch{m.String(), kind, v, d})
+			}
+		}
+		if m.Env == "struct" && m.Opt && errO == nil {
+			// the operator table given BEFORE the environment must mean the same
+			rev := append(append([]expr.Option{}, t.options()...), m.Options()...)
+			pR, errR := func() (p *vm.Program, err error) {
+				defer func() {
+					if r := recover(); r != nil {
+						err = fmt.Errorf("PANIC %v", r)
+					}
+				}()
+				return expr.Compile(src, rev...)
+			}()
+			if errR != nil || progKey(pR) != progKey(pO) {
+				add("operators-before-env-differ", henv.Val{}, fmt.Sprint(errR))
 			}
 		}
 		if errC != nil {
